@@ -37,7 +37,7 @@ func (r *Rng) genScalar() interface{} {
 
 func (r *Rng) genKey(cfg genCfg) string {
 	if cfg.oddKeys && r.chance(0.08) {
-		return r.pick([]string{"", "a.b", "x[0]", "*", "[", "!k"})
+		return r.pick([]string{"", "a.b", "x[0]", "*", "[", "!k", " id", "name ", " "})
 	}
 	return r.pick(keyPool)
 }
@@ -66,6 +66,9 @@ func (r *Rng) genList(cfg genCfg, depth int) []interface{} {
 	}
 	if cfg.wide && r.chance(0.03) {
 		n = 33 + r.Intn(20)
+		if r.chance(0.4) {
+			n = 65 + r.Intn(80) // beyond twice the initial result capacity
+		}
 	}
 	l := make([]interface{}, 0, n)
 	if n > 32 {
@@ -250,10 +253,16 @@ func (r *Rng) genSubKeys(m map[string]interface{}, sep string, malformed bool) [
 		return cands[i][1] < cands[j][1]
 	})
 	n := 1
-	if r.chance(0.25) {
-		n = 2
+	if r.chance(0.3) {
+		n = 2 + r.Intn(2)
 	}
 	var out []string
+	// conditions that an ABSENT key satisfies: a map with fewer entries than conditions can still match
+	if !malformed && r.chance(0.2) {
+		for i := 0; i < 1+r.Intn(3); i++ {
+			out = append(out, "!"+r.pick([]string{"zz", "deleted", "hidden", "yy"})+sep+"*")
+		}
+	}
 	for i := 0; i < n; i++ {
 		var k, v, t string
 		if len(cands) > 0 && r.chance(0.8) {
